@@ -1,6 +1,7 @@
 package main
 
 import (
+	"regexp"
 	"bytes"
 	"context"
 	"fmt"
@@ -185,6 +186,27 @@ func (o *Obligation) SMTQF(prelude string) string {
 	return b.String()
 }
 
+// arithSimp cancels a constant that is subtracted and added again, (+ (- a n) n) and (- (+ a n) n), for an atom a:
+// terms of this shape come from counting loops (i-- followed by an invariant over i+1) and cost the solvers
+// far more than they should.
+var arithSimpRe1 = regexp.MustCompile(`\(\+ \(- ([^\s()]+) (\d+)\) (\d+)\)`)
+var arithSimpRe2 = regexp.MustCompile(`\(- \(\+ ([^\s()]+) (\d+)\) (\d+)\)`)
+
+func arithSimp(t string) string {
+	f := func(re *regexp.Regexp) {
+		t = re.ReplaceAllStringFunc(t, func(m string) string {
+			g := re.FindStringSubmatch(m)
+			if g[2] == g[3] {
+				return g[1]
+			}
+			return m
+		})
+	}
+	f(arithSimpRe1)
+	f(arithSimpRe2)
+	return t
+}
+
 func (o *Obligation) SMT(prelude string) string {
 	var b strings.Builder
 	b.WriteString("; obligation " + o.ID + "\n; " + strings.ReplaceAll(o.GoalText, "\n", " ") + "\n; path " + o.Path + "\n")
@@ -195,11 +217,11 @@ func (o *Obligation) SMT(prelude string) string {
 	}
 	for _, h := range o.Hyps {
 		b.WriteString("(assert ")
-		b.WriteString(h)
+		b.WriteString(arithSimp(h))
 		b.WriteString(")\n")
 	}
 	b.WriteString("(assert (not ")
-	b.WriteString(o.Goal)
+	b.WriteString(arithSimp(o.Goal))
 	b.WriteString("))\n(check-sat)\n(get-model)\n")
 	return b.String()
 }
@@ -207,14 +229,21 @@ func (o *Obligation) SMT(prelude string) string {
 type solverSpec struct {
 	name string
 	args func(file string, timeout int) []string
+	// unsatOnly: the configuration drops axioms (array extensionality), so only its "unsat" is an answer
+	unsatOnly bool
 }
 
 var solvers = []solverSpec{
-	{"z3-new", func(f string, t int) []string { return []string{"z3-new", fmt.Sprintf("-T:%d", t), f} }},
+	{"z3-new", func(f string, t int) []string { return []string{"z3-new", fmt.Sprintf("-T:%d", t), f} }, false},
 	{"cvc5", func(f string, t int) []string {
 		return []string{"cvc5", fmt.Sprintf("--tlimit=%d", t*1000), "--produce-models", "--strings-exp", f}
-	}},
-	{"z3", func(f string, t int) []string { return []string{"z3", fmt.Sprintf("-T:%d", t), f} }},
+	}, false},
+	{"z3", func(f string, t int) []string { return []string{"z3", fmt.Sprintf("-T:%d", t), f} }, false},
+	// without the extensionality axioms of the array theory: a weaker theory, so "unsat" carries over; much more
+	// stable on obligations with struct equalities over array-valued ghost fields
+	{"z3-new-noext", func(f string, t int) []string {
+		return []string{"z3-new", fmt.Sprintf("-T:%d", t), "smt.array.extensional=false", f}
+	}, true},
 }
 
 type solveAnswer struct {
@@ -252,6 +281,9 @@ func runSolver(ctx context.Context, s solverSpec, file string, timeout int) solv
 	}
 	if len(text) > 20000 {
 		text = text[:20000] + "\n...[truncated]"
+	}
+	if s.unsatOnly && v == "sat" {
+		v = "unknown"
 	}
 	return solveAnswer{s.name, v, text, secs}
 }
@@ -390,7 +422,23 @@ func (s *Solver) solveOne(i int, o *Obligation) {
 		}
 		return
 	}
-	a := runSolver(ctx, solvers[0], file, t1)
+	// stage 1: z3-new with and without array extensionality, side by side, short
+	var a solveAnswer
+	{
+		c1, cancel1 := context.WithCancel(ctx)
+		ch1 := make(chan solveAnswer, 2)
+		go func() { ch1 <- runSolver(c1, solvers[0], file, t1) }()
+		go func() { ch1 <- runSolver(c1, solvers[3], file, t1) }()
+		x := <-ch1
+		if x.verdict != "unsat" && x.verdict != "sat" {
+			y := <-ch1
+			if y.verdict == "unsat" || y.verdict == "sat" || y.solver == solvers[0].name {
+				x = y
+			}
+		}
+		cancel1()
+		a = x
+	}
 	if decide(a) && !s.Agreement {
 		return
 	}
